@@ -157,7 +157,7 @@ func scenario(s scn) sched.Scenario {
 		w.Explore(cfg, sched.Bounds{Env: s.env}, func(e *sched.Env) {
 			banner, hello := helloOf(s)
 			srv := &dev.NCServer{Hello: hello, Banner: banner, Echo: s.echo}
-			if s.layout == "trailnl" {
+			if s.layout == "trailnl" || s.layout == "compactnl" {
 				srv.HelloTrail = "\n" // a line feed after the delimiter, as servers that print the hello with println do
 			}
 			if s.layout == "nothello" {
@@ -288,7 +288,7 @@ func escAll(in []string) []string {
 
 func scenarios(tier string) []sched.Scenario {
 	var out []sched.Scenario
-	layouts := []string{"compact", "pretty", "padded", "prefixed", "decl", "banner", "trailnl"}
+	layouts := []string{"compact", "pretty", "padded", "prefixed", "decl", "banner", "trailnl", "compactnl"}
 	for adv := 0; adv < 4; adv++ {
 		for _, pref := range []string{"", "1.0", "1.1"} {
 			for _, lay := range layouts {
